@@ -321,6 +321,10 @@ def gen_ops(rnd, m, nops, small):
 SIZES = [0, 1, 4095, 4096, 4097, 8193, 20000]
 
 
+def _is_big(ops):
+    return any(isinstance(x, list) and len(x) > 12000 for _, args in ops for x in args)
+
+
 def gen_executions(ctx):
     """Each execution: (list of (op, args))."""
     rnd = random.Random(ctx.seed)
@@ -366,14 +370,46 @@ def keyfn_free(variant, f):
     return "%s.%s %s%s" % (variant, f.op, f.kind, ("/" + d) if d else "")
 
 
-def trace_validation(ctx, exe, variant="direct"):
-    from vlib import trace
+def validate_events(ctx, events, tag):
+    """TLC on MBuffObjTrace.  Returns (accepted, n_consumed, [event indexes whose return value differs])."""
+    import os
+    from vlib.tlc import run_tlc
+    path = os.path.join(ctx.rundir, "trace-%s-%d.ndjson" % (tag, os.getpid()))
+    with open(path, "w") as f:
+        for e in events:
+            f.write(json.dumps(e, separators=(",", ":")) + "\n")
+    res = run_tlc("MBuffObjTrace.tla", "MBuffObjTrace.cfg", ctx.rundir, workers=1, timeout=1500, env={"TRACE": path}, heap="8g",
+                  coverage=False)
+    txt = "\n".join(res.tail)
+    retbad = sorted(set(int(x) - 1 for x in re.findall(r'"RET_MISMATCH", (\d+)', txt)))
+    m = re.search(r'"TRACE_REJECTED_AFTER", (\d+), "OF", (\d+)', txt)
+    if m:
+        return False, int(m.group(1)), retbad
+    if res.ok:
+        return True, len(events), retbad
+    raise Broken("trace validation run failed without a verdict:\n%s" % "\n".join(res.tail[-30:]))
+
+
+def record_and_validate(ctx, exe, execs, variant="direct", tag="mbuff", noheap=()):
+    """Runs the programs in record mode on the implementation, turns the records into events and lets TLC validate
+    them against MBuffObjTrace.  Returns a dict of counters; failures are reported through ctx.report."""
     from vlib.replay import run_scripts
-    execs = gen_executions(ctx)
     texts = [script_of(k + 1, ops) for k, ops in enumerate(execs)]
-    fails, recs, ns, nt = run_scripts(exe, [variant], texts, ctx.rundir, jobs=4, tag="rec-mbuff")
+    # tokens above 64 KB make the harness runtime grow its string builders inside the measured heap window: executions
+    # with such values are recorded without the heap-balance postlude (the same code paths run with it at 8193 bytes)
+    big = [k for k in range(len(execs)) if k in noheap]
+    small = [k for k in range(len(execs)) if k not in noheap]
+    fails, recs = [], []
+    for grp, env, tg in ((small, None, "rec-" + tag), (big, {"VH_NO_HEAP": "1"}, "recbig-" + tag)):
+        if grp:
+            f_, r_, ns, nt = run_scripts(exe, [variant], [texts[k] for k in grp], ctx.rundir, jobs=4, env=env, tag=tg)
+            fails += f_
+            recs += r_
     bad = {}
     for f in fails:
+        if f.kind == "inv" and f.got.startswith("harness:op_") and f.got.endswith("_on_absent_slot"):
+            # an earlier constructor did not deliver an object: the recorded prefix goes to TLC, which rejects that event
+            continue
         bad.setdefault(f.sid, f)
     for sid, f in sorted(bad.items()):
         ops = execs[sid - 1]
@@ -387,18 +423,19 @@ def trace_validation(ctx, exe, variant="direct"):
             cls = " [%s:%s,%s]" % (opd[1][0], opd[1][1], "n=0" if n == 0 else ("n<=4096" if n <= 4096 else "n>4096"))
         ctx.report("trace-run %s%s" % (keyfn_free(variant, f), cls),
                    "%s: recorded execution %d failed at step %d (%s) before validation: %r" % (variant, sid, f.step, opd[0], f),
-                   {"variant": variant, "harness_args": [variant], "script_text": _short_script(texts[sid - 1], f.step), "failure": repr(f),
+                   {"variant": variant, "harness_args": [variant], "program": ops[:max(0, f.step) + 1], "failure": repr(f),
                     "detail": f.detail})
     by = {}
     for sid, step, ret, state in recs:
         by.setdefault(sid, []).append((step, ret, state))
-    events, index = [], []
+    events, index, pres = [], [], []
     maxlen = 0
     for sid in sorted(by):
         if sid in bad:
             continue
         events.append({"op": "reset", "args": [], "ret": True, "ca": True, "cb": True, "pa": INIT["a"], "pb": INIT["b"]})
         index.append((sid, -1))
+        pres.append(INIT)
         prev = INIT
         for step, ret, state in sorted(by[sid]):
             op, args = execs[sid - 1][step]
@@ -409,28 +446,57 @@ def trace_validation(ctx, exe, variant="direct"):
             if ev["cb"]:
                 ev["pb"] = post["b"]
             maxlen = max(maxlen, len(post["a"]["s"]))
+            pres.append(prev)
             prev = post
             events.append(ev)
             index.append((sid, step))
     nvalid = 0
+    accepted = True
+    nretbad = 0
     if events:
-        ok, pos, path = trace.validate(ctx, "MBuffObjTrace.tla", "MBuffObjTrace.cfg", events, tag="mbuff", timeout=1500)
+        ok, pos, retbad = validate_events(ctx, events, tag)
         nvalid = pos
+        accepted = ok
+
+        def cls_of(k):
+            try:
+                return argclass({"op": events[k]["op"], "args": events[k]["args"], "pre": pres[k]})
+            except Exception:
+                return "-"
+        for k in retbad:
+            # non-blocking: the value agreed, the returned value did not (TLC went on with the rest of the trace)
+            sid, step = index[k]
+            nretbad += 1
+            ctx.report("trace-ret %s.%s [%s]" % (variant, events[k]["op"], cls_of(k)),
+                       "%s: recorded execution %s step %s: returned value %s is not the one the specification allows: %s" % (
+                           variant, sid, step, json.dumps(events[k]["ret"])[:80], json.dumps(_clip(events[k]))[:400]),
+                       {"variant": variant, "harness_args": [variant], "program": execs[sid - 1][:step + 1], "event_index": k})
         if not ok:
             sid, step = index[pos] if pos < len(index) else (None, None)
             evb = events[pos] if pos < len(events) else None
             opn = evb["op"] if evb else "?"
-            ctx.report("trace-rejected %s.%s" % (variant, opn),
+            ctx.report("trace-rejected %s.%s [%s]" % (variant, opn, cls_of(pos) if evb else "-"),
                        "%s: TLC rejects the recorded execution %s at event %d (step %s): %s" % (variant, sid, pos, step, json.dumps(evb)[:400]),
-                       {"variant": variant, "harness_args": [variant], "script_text": _short_script(texts[sid - 1], step) if sid else "",
+                       {"variant": variant, "harness_args": [variant], "program": execs[sid - 1][:step + 1] if sid else [],
                         "event": _clip(evb), "event_index": pos})
         else:
             ctx.sample({"variant": variant, "trace_events": len(events), "executions": len(by) - len(bad), "max_len_seen": maxlen,
                         "first_events": [json.dumps(_clip(e))[:160] for e in events[1:4]]})
-    ctx.add("trace_events_validated", nvalid)
-    ctx.add("traces_validated_against_impl", len(by) - len(bad))
-    ctx.cov["trace"] = {"executions": len(execs), "executions_recorded": len(by) - len(bad), "events": len(events),
-                        "events_accepted": nvalid, "max_len_seen": maxlen, "sizes": SIZES,
+    return {"executions": len(execs), "recorded": len([s for s in by if s not in bad]), "events": len(events), "accepted_events": nvalid,
+            "accepted": accepted and not bad, "maxlen": maxlen, "ret_mismatches": nretbad}
+
+
+def trace_validation(ctx, exe, variant="direct"):
+    execs = gen_executions(ctx)
+    noheap = set(k for k, ops in enumerate(execs) if _is_big(ops))
+    r = record_and_validate(ctx, exe, execs, variant, noheap=noheap)
+    ctx.cov.setdefault("notes", []).append("%d of %d recorded executions (values > 12000 bytes) ran without the heap-balance postlude" % (
+        len(noheap), len(execs)))
+    ctx.add("trace_events_validated", r["accepted_events"])
+    ctx.add("traces_validated_against_impl", r["recorded"])
+    ctx.cov["trace"] = {"executions": r["executions"], "executions_recorded": r["recorded"], "events": r["events"],
+                        "events_accepted": r["accepted_events"], "return_value_mismatches": r["ret_mismatches"],
+                        "max_len_seen": r["maxlen"], "sizes": SIZES,
                         "input_kinds": ["file", "seek(non-zero offset)", "pipe", "pieces(forked writer)"]}
 
 
@@ -440,13 +506,6 @@ def _clip(ev):
     s = json.dumps(ev)
     return ev if len(s) < 2000 else {"op": ev.get("op"), "ret": ev.get("ret") if len(json.dumps(ev.get("ret"))) < 200 else "...",
                                       "clipped": s[:600]}
-
-
-def _short_script(text, upto):
-    """A replay file should stay small: keep the script up to the failing step."""
-    lines = text.split("\n")
-    keep = lines[:1] + lines[1:2 + max(0, upto)] + ["E", ""]
-    return "\n".join(keep)
 
 
 def run(ctx):
@@ -474,4 +533,18 @@ def run(ctx):
 
 
 def replay(ctx, path):
-    return objcheck.replay_file(harness(ctx), [], path, ctx.rundir)
+    d = json.load(open(path))
+    rp = d.get("replay") or {}
+    exe = harness(ctx)
+    if rp.get("program"):
+        # a recorded execution: run it again in record mode and let TLC judge the events
+        ops = [(o, a) for o, a in rp["program"]]
+        r = record_and_validate(ctx, exe, [ops], rp.get("variant", "direct"), tag="replay")
+        for k in sorted(ctx.violations):
+            print("REPRODUCED", k, "::", ctx.violations[k][0][:600])
+        if not ctx.violations and not ctx.known_hit:
+            print("not reproduced: %d events recorded and accepted by TLC" % r["accepted_events"])
+        for k in sorted(ctx.known_hit):
+            print("REPRODUCED (known finding)", k)
+        return 1 if (ctx.violations or ctx.known_hit) else 0
+    return objcheck.replay_file(exe, [], path, ctx.rundir)
